@@ -269,6 +269,7 @@ func resolveComputedFields(env *Environment, errorSink *validation.ErrorSink) *E
 					rewrittenField := self.Rewrite(f, innerContext).(*ComputedField)
 					t.ResolvedType = rewrittenField.Expression.GetResolvedType()
 					t.Kind = MemberAccessComputedField
+					t.ComputedFieldIsReference = rewrittenField.Expression.IsReference()
 					return t
 				}
 			}
